@@ -186,6 +186,22 @@ class C15(Prop):
                         for pos in range(len(base) + 1):
                             evs = base[:pos] + [JOIN] + base[pos:]
                             out.append(mk_case(chain, evs, ("local", "threads")[(pos + n) % 2], "join"))
+        # the RAII way: `unsubscribe_when_dropped()` and the guard dropped (event `gdrop`) instead of `unsubscribe()` — also
+        # over a source that was torn down before the subscription (field `dead`: the upstream subscription reports closed
+        # although no terminal ever arrived; seed C15-8 made the guard skip "closed" subscriptions)
+        for chain in ([["fin", "0"]], [["fin", "0"], ["take", "1"]], [["take", "2"], ["fin", "0"]], [["fin", "0"], ["fin", "1"]]):
+            for n in range(0, 4):
+                for seq in itertools.product(ALPHABET, repeat=n):
+                    base = self.number(seq)
+                    evs = [["gdrop"] if e == UNSUB else e for e in base]
+                    if ["gdrop"] not in evs:
+                        evs = evs + [["gdrop"]]
+                    for dead in (False, True):
+                        c = mk_case(chain, evs, ("local", "threads")[(n + len(evs)) % 2], "guard")
+                        if dead:
+                            c.fields.append(("dead", ["1"]))
+                            c.meta = {"kind": "dead"}
+                        out.append(c)
         # random chains
         nrand = 5000 if tier == "quick" else 50000
         for _ in range(nrand):
@@ -246,6 +262,11 @@ class C15(Prop):
 
     # ----------------------------------------------------------------- oracle
     def oracle(self, case, lines, model_lines=None):
+        if any(e[0] == "gdrop" for e in case.events):
+            # unsubscription through the RAII guard is an unsubscription
+            c2 = case.copy()
+            c2.events = [["unsub"] if e[0] == "gdrop" else list(e) for e in case.events]
+            return self.oracle(c2, lines, model_lines)
         chain = case.field("chain")
         ids = fin_ids(chain)
         if case.meta.get("kind") in ("clones", "dead") or case.field("clones") or case.field("dead"):
